@@ -344,7 +344,10 @@ class Check:
         raise NotImplementedError
 
     def wall_cap(self, tier):
-        return 900 if tier == "quick" else 6 * 3600
+        # wall-clock cap of the generated search; hitting it means "explored this much", never a violation.  VERIF_WALL_CAP_S overrides (used to smoke-test the thorough tiers)
+        if os.environ.get("VERIF_WALL_CAP_S"):
+            return int(os.environ["VERIF_WALL_CAP_S"])
+        return 900 if tier == "quick" else 3000
 
     def replay_for(self, path):
         """(binary, args) that replays the given file."""
